@@ -432,7 +432,7 @@ impl<'a> Gen<'a> {
                     NestKind::Closure => cands.push((8, c(vec![s("cret")]))),
                     NestKind::Poll { a, meth } => {
                         let res = match *meth {
-                            "next" => *self.rng.pick(&["pending", "item", "final"]),
+                            "next" => *self.rng.pick(&["pending", "item", "lastitem", "final"]),
                             "start" => *self.rng.pick(&["final", "final", "err"]),
                             "fut" => *self.rng.pick(&["pending", "final"]),
                             // sink methods: the inner sink may fail (Ready(Err)); only a completed
